@@ -136,6 +136,29 @@ Theorem C08_poll_exhausted : forall (nd : list operation) (initial : operation) 
 Proof. exact poll_exhausted. Qed.
 Print Assumptions C08_poll_exhausted.
 
+(* the transports offer operations_client iff some method of the service, public or internal, is an LRO *)
+Theorem C08_ops_client_iff_some_lro : forall ms,
+  has_operations_client ms = true <-> exists m r mt, In m ms /\ sm_decision m = Lro r mt.
+Proof. exact ops_client_iff_some_lro. Qed.
+Print Assumptions C08_ops_client_iff_some_lro.
+
+Theorem C08_ops_client_ignores_visibility : forall ms f,
+  has_operations_client (map (fun m => mkSM (f m) (sm_decision m)) ms) = has_operations_client ms.
+Proof. exact ops_client_ignores_visibility. Qed.
+Print Assumptions C08_ops_client_ignores_visibility.
+
+Theorem C08_future_has_operations_client : forall ms m async w,
+  In m ms -> client_output async (sm_decision m) = Some (ReturnsFuture w) -> has_operations_client ms = true.
+Proof. exact future_has_operations_client. Qed.
+Print Assumptions C08_future_has_operations_client.
+
+Example C08_internal_lro_example :
+  has_operations_client [mkSM false Plain; mkSM true (Lro "a.R" "a.M")] = true /\
+  has_operations_client [mkSM false Plain; mkSM true Raw] = false /\
+  client_output true (Lro "a.R" "a.M") = Some (ReturnsFuture (emit_wrap true "a.R" "a.M")).
+Proof. exact ex_internal_lro. Qed.
+Print Assumptions C08_internal_lro_example.
+
 (* the former finding, now accepted, and the precedence when both readings name a message *)
 Example C08_nested_relative_example :
   let f1 := [mkFile "a/b.proto" "a.b" [] ["a.b.Outer"; "a.b.Outer.Inner"]] in
